@@ -44,6 +44,34 @@ Theorem C02_accept_authorised_refuted_cosigner :
 Proof. exact accept_authorised_refuted_cosigner. Qed.
 Print Assumptions C02_accept_authorised_refuted_cosigner.
 
+(* The "exactly one message" rule of the Ethereum path is an obligation of EACH branch (the EIP-712
+   digest / the raw Ethereum transaction cover the first message only): relaxing either refutes the
+   full statement ... *)
+Theorem C02_accept_authorised_refuted_msgs_eip712 :
+  forall v, v_eip_single v = false ->
+  exists verify recover addr_of_pk eth_sender c s t s',
+    ante verify recover addr_of_pk eth_sender v c s t = Ok s' /\
+    ~ Forall2 (Authorised verify recover addr_of_pk eth_sender c s t) (signers t) (t_slots t).
+Proof. exact accept_authorised_refuted_msgs_eip712. Qed.
+Print Assumptions C02_accept_authorised_refuted_msgs_eip712.
+Theorem C02_accept_authorised_refuted_msgs_ethraw :
+  forall v, v_raw_single v = false ->
+  exists verify recover addr_of_pk eth_sender c s t s',
+    ante verify recover addr_of_pk eth_sender v c s t = Ok s' /\
+    ~ Forall2 (Authorised verify recover addr_of_pk eth_sender c s t) (signers t) (t_slots t).
+Proof. exact accept_authorised_refuted_msgs_ethraw. Qed.
+Print Assumptions C02_accept_authorised_refuted_msgs_ethraw.
+(* ... and on the tree as it is a DIRECT slot accepted on the Ethereum path belongs to a transaction
+   with exactly one message *)
+Theorem C02_eth_path_single_message :
+  forall verify recover addr_of_pk eth_sender v c s t s', sound_for v t = true ->
+  ante verify recover addr_of_pk eth_sender v c s t = Ok s' ->
+  forall i a x acc k, nth_error (signers t) i = Some a -> nth_error (t_slots t) i = Some x ->
+  get_acc s a = Some acc -> (a_pub acc = Some k \/ (a_pub acc = None /\ s_att x = Some k)) ->
+  addr_of_pk k <> a -> s_mode x = MDirect -> single_msg t = true.
+Proof. exact eth_path_single_message. Qed.
+Print Assumptions C02_eth_path_single_message.
+
 (* A transaction that has been accepted once is rejected when submitted again -- whatever happened
    in between, and for EVERY variant of the code (also the code as it is): the first signer's
    slot is always compared with the account sequence, and sequences only grow.
@@ -180,7 +208,7 @@ Print Assumptions C02_replay_unbounded_refuted.
 Example C02_nonvacuous_key : forall v,   (* ordinary DIRECT transaction by the key on record: accepted by every variant *)
   sound_for v e_honest = true /\
   ante e_verify e_recover w_addr_of_pk w_eth_sender v w_ctx w_state e_honest = Ok [(100, mkAcc None 0 5); (200, mkAcc (Some (Secp 200)) 4 6)].
-Proof. intros v. split; [destruct v as [[] []]; reflexivity|apply ex_honest_accepted]. Qed.
+Proof. intros v. split; [destruct v as [[] [] [] []]; reflexivity|apply ex_honest_accepted]. Qed.
 Example C02_nonvacuous_raw_eth :         (* honest raw Ethereum tx of an eth-style first-time signer, foreign key attached: repaired code accepts *)
   sound_for repaired e_raw_honest = true /\
   ante e_verify e_recover w_addr_of_pk w_eth_sender repaired w_ctx w_state e_raw_honest = Ok [(100, mkAcc (Some (Secp 1)) 1 5); (200, mkAcc (Some (Secp 200)) 3 6)].
